@@ -128,6 +128,8 @@ func C04(r *h.Run) {
 	rng := r.Rng.Fork("c04")
 	protos := []string{"connect", "grpc", "grpcweb"}
 	fins := []h.FinKind{h.FinCleanEOF, h.FinUnexpectedEOF, h.FinOther}
+	// on the client side the transport may also report that the peer reset the stream
+	clientFins := []h.FinKind{h.FinCleanEOF, h.FinUnexpectedEOF, h.FinOther, h.FinRSTNoError, h.FinRSTCancel}
 
 	nBodies := r.N(18, 90)
 	for bi := 0; bi < nBodies; bi++ {
@@ -165,7 +167,7 @@ func C04(r *h.Run) {
 			boundaries[off] = i + 1
 		}
 		for cut := 0; cut <= len(body); cut++ {
-			for _, fin := range fins {
+			for _, fin := range clientFins {
 				for _, withTrailers := range []bool{true, false} {
 					if cfg.Proto != "grpc" && !withTrailers {
 						continue // trailers are in band
@@ -250,7 +252,7 @@ func C04(r *h.Run) {
 			one := genPayload(rng, 1+rng.Intn(6))
 			ubody := append(h.Frame(0, one), term...)
 			for cut := 0; cut <= len(ubody); cut++ {
-				for _, fin := range fins {
+				for _, fin := range clientFins {
 					chunks := [][]byte{ubody[:cut]}
 					var o obsItem
 					timedOut, p := withWatchdog(5*time.Second, func() {
@@ -309,6 +311,53 @@ func C04(r *h.Run) {
 		}
 	}
 	r.Sum.Exhaustive["every cut offset of every generated body x 3 end kinds"] = true
+
+	// ---- Connect unary responses (CallUnary): the body carries no terminator of its own; the
+	// transport's clean end of body is the marker. A body that FAILS — short, reset by the peer
+	// with any code, a transport error — at any offset must never be reported as success ----
+	for i := 0; i < r.N(12, 80); i++ {
+		payload := genPayload(rng, 1+rng.Intn(24))
+		for _, algo := range []string{"", "tagA"} {
+			wire := compressToy(algo, payload)
+			hdr := http.Header{"Content-Type": {"application/toy"}}
+			if algo != "" {
+				hdr.Set("Content-Encoding", algo)
+			}
+			for cut := 0; cut <= len(wire); cut++ {
+				for _, fin := range clientFins {
+					var got []byte
+					var err error
+					timedOut, p := withWatchdog(5*time.Second, func() {
+						canned := &h.CannedClient{Build: func(*http.Request) (*http.Response, error) {
+							return h.NewResponse(200, hdr.Clone(), h.NewChunkBody([][]byte{wire[:cut]}, fin), nil), nil
+						}}
+						client := connect.NewClient[h.Raw, h.Raw](canned, "http://verif.local/verif.Svc/Unary", clientOpts(envCfg{Proto: "connect"}, "")...)
+						var resp *connect.Response[h.Raw]
+						resp, err = client.CallUnary(context.Background(), connect.NewRequest(&h.Raw{B: []byte("q")}))
+						if err == nil {
+							got = resp.Msg.B
+						}
+					})
+					in := map[string]any{"proto": "connect", "kind": "unary (CallUnary)", "algo": algo, "body_hex": h.Hex(wire), "cut": cut, "fin": fin.Coq()}
+					r.Eval("client_cut_connect_unary", fmt.Sprintf("%x|%s|%d|%d", wire, algo, cut, fin))
+					if timedOut || p != nil {
+						r.Fail(h.Failure{Key: "cut/hang-or-panic", Family: "client_cut_connect_unary", What: fmt.Sprint("hang or panic: ", p, " timeout=", timedOut), Input: in})
+						continue
+					}
+					failed := fin != h.FinCleanEOF && fin != h.FinEOFWithData
+					if err == nil && failed {
+						r.Fail(h.Failure{Key: "cut/unary-success-without-terminator", Family: "client_cut_connect_unary", What: "a unary Connect call succeeded although its response body failed before its end", Input: in, Actual: h.Hex(got)})
+					}
+					if err == nil && !failed && cut == len(wire) && !bytes.Equal(got, payload) {
+						r.Fail(h.Failure{Key: "cut/unary-wrong-message", Family: "client_cut_connect_unary", What: "unary call delivered a different message", Input: in, Actual: h.Hex(got)})
+					}
+					if err != nil && connect.CodeOf(err) == 0 {
+						r.Fail(h.Failure{Key: "cut/zero-code", Family: "client_cut_connect_unary", What: "failure reported with the zero code", Input: in})
+					}
+				}
+			}
+		}
+	}
 
 	// ---- write side: the k-th Write of the ResponseWriter fails ----
 	for _, proto := range protos {
